@@ -106,7 +106,7 @@ def gen_dst(rng, src, opts):
     # extras
     dirs = [""] + [r for r, n in dst.items() if n["k"] == "d"]
     for _ in range(rng.below(4) if opts.get("extras", True) else 0):
-        parent = rng.pick(dirs); name = rng.pick(["extra", "old.txt", "zz", "stale", "a.sy.tmp", "keep.log"])
+        parent = rng.pick(dirs); name = rng.pick(["extra", "old.txt", "zz", "stale", "q.sy.tmp", "keep.log"])
         rel = (parent + "/" if parent else "") + name
         if rel in dst or rel in src: continue
         k = rng.below(4)
@@ -157,6 +157,25 @@ def gen_flags(rng, focus, caps):
         if rng.chance(1, 2): env["SY_VERIF_FORCE_COW"] = "1"
     return f, c, o, env, excl
 
+def gen_c07_case(rng):
+    """trees placed exactly at, just below and just above the threshold (flat, no filters)"""
+    cnt = rng.range(1, 40); thr = rng.pick([0, 1, 7, 10, 25, 28, 33, 50, 50, 66, 75, 90, 99, 100])
+    base = thr * cnt // 100
+    dels = max(0, min(cnt, base + rng.pick([-1, 0, 0, 1, 1, 2])))
+    src, dst = {}, {}
+    for i in range(cnt - dels):
+        src[f"k{i}"] = F(b"keep%d" % i); dst[f"k{i}"] = F(b"keep%d" % i)
+    for i in range(dels): dst[f"x{i}"] = F(b"stale")
+    if rng.chance(1, 3): src["new"] = F(b"new file")
+    flags = ["--delete", "--delete-threshold", str(thr), "-j", str(rng.pick([1, 4]))]
+    tie = 1 if (cnt > 0 and (dels / cnt) * 100.0 > float(thr)) else 0       # the f64 expression of sync/mod.rs
+    exact_tie = dels * 100 == thr * cnt
+    cfg = {"delete": 1, "thr": thr, "tie": tie if exact_tie else 0}
+    return src, dst, flags, cfg, {}, [], ("tie" if exact_tie else "above" if dels * 100 > thr * cnt else "below")
+
+C08_EXTRA = [["--checksum", "--checksum-db", "true"], ["--use-cache", "true"], ["--clear-cache"], ["--clean-state"], ["--resume", "true"],
+             ["--checksum", "--checksum-db", "true", "--clear-checksum-db"], ["--diff"], []]
+
 def excluded_bits(tree_paths, isdir, excl):
     """literal-name rules only (python mirror of FilterRule::matches for patterns without wildcards):
     NAME -> basename equality; NAME/ -> a directory named NAME and everything below any ancestor named NAME."""
@@ -203,7 +222,7 @@ def run(tier="quick", seed=1, work=None, replay=None, focus="C01", ncases=None):
                       "x flags (links mode, compare mode, --delete/threshold/force, -X, -H, size bounds, literal excludes, -j, hooked delta path); "
                       "non-trivial = at least one create/update/delete performed or predicted; distinct = distinct (trees, flags)")
     rng = Rng(seed * 1_000_003 + sum(map(ord, focus)))
-    n = ncases or (40 if tier == "quick" else 400)
+    n = ncases or (150 if tier == "quick" else 2000)
     os.makedirs(work, exist_ok=True)
     caps = probe_caps(work)
     if not caps.get("xattr"): rep.skipped.append("xattr streams skipped: user.* xattrs unsupported in work dir")
@@ -213,8 +232,20 @@ def run(tier="quick", seed=1, work=None, replay=None, focus="C01", ncases=None):
         for ci in range(n):
             case_dir = os.path.join(work, f"c{ci}")
             src_root, dst_root, out_root = (os.path.join(case_dir, x) for x in ("src", "dst", "out"))
-            flags, cfg, opts, env, excl = gen_flags(rng, focus, caps)
-            src = gen_src(rng, opts); dst = gen_dst(rng, src, opts)
+            if focus == "C07" and ci % 2 == 0:
+                src, dst, flags, cfg, env, excl, cls = gen_c07_case(rng); rep.tag("c07." + cls)
+            else:
+                flags, cfg, opts, env, excl = gen_flags(rng, focus, caps)
+                src = gen_src(rng, opts); dst = gen_dst(rng, src, opts)
+            if focus == "C08":
+                extra = rng.pick(C08_EXTRA)
+                if "--checksum" in extra:
+                    if cfg.get("cmp", "d") == "d": cfg["cmp"] = "c"
+                    elif cfg.get("cmp") == "c": extra = [x for x in extra if x != "--checksum"]
+                    else: extra = []
+                flags = flags + extra
+                for x in extra:
+                    if x.startswith("--"): rep.tag("c08.flag." + x)
             subst = {"@SRC@": src_root, "@OUT@": out_root}
             os.makedirs(out_root); open(os.path.join(out_root, "sentinel.txt"), "wb").write(b"sentinel")
             os.utime(os.path.join(out_root, "sentinel.txt"), ns=(BASE_T * 10**9, BASE_T * 10**9))
@@ -236,6 +267,8 @@ def one_case(rep, drv, contents, focus, ci, seed, case_dir, src_root, dst_root, 
             "dst": {r: (n["k"], n.get("size"), n.get("text")) for r, n in sorted(pre_dst.items())}}
     if model is None:
         rep.disagree({"what": "model returned bad-op", "request": req[:400], **desc}); return
+    if focus == "C08":
+        if not dry_twin(rep, drv, contents, desc, case_dir, src_root, dst_root, out_root, flags, cfg, env, order, exb, pre_src, pre_dst, pre_out): return
     rc, out, err = run_sy([src_root, dst_root, "--json"] + flags, case_dir, env_extra=env)
     post_src = snapshot(src_root, contents); post_dst = snapshot(dst_root, contents); post_out = snapshot(out_root, contents)
     ev, bad = events_of(out)
@@ -274,6 +307,53 @@ def one_case(rep, drv, contents, focus, ci, seed, case_dir, src_root, dst_root, 
     # ---------------- O: oracles from the property texts ----------------
     oracles(rep, focus, desc, rc, ev, bad, summ, real_events, real_errors, pre_src, post_src, pre_dst, post_dst, pre_out, post_out,
             flags, cfg, excl, exb, order, src_root, dst_root, case_dir, env, contents, err)
+
+def home_listing(case_dir):
+    out = {}
+    home = os.path.join(case_dir, "home")
+    for dp, dn, fn in os.walk(home):
+        for name in dn + fn:
+            p = os.path.join(dp, name); st = os.lstat(p)
+            out[os.path.relpath(p, home)] = (stat.S_IFMT(st.st_mode), st.st_size if not stat.S_ISDIR(st.st_mode) else 0, st.st_mtime_ns if not stat.S_ISDIR(st.st_mode) else 0)
+    return out
+
+DRY_EVENTS = {}
+
+def dry_twin(rep, drv, contents, desc, case_dir, src_root, dst_root, out_root, flags, cfg, env, order, exb, pre_src, pre_dst, pre_out):
+    """C08: run the same command with --dry-run first; nothing anywhere may change (trees, sy's own
+    files in the destination, private HOME/XDG dirs); its reported actions are compared with the real run later."""
+    os.makedirs(os.path.join(case_dir, "home"), exist_ok=True)
+    h0 = home_listing(case_dir)
+    full0 = snapshot(dst_root, contents, with_own=True)
+    rc, out, err = run_sy([src_root, dst_root, "--json", "--dry-run"] + flags, case_dir, env_extra=env)
+    h1 = home_listing(case_dir)
+    full1 = snapshot(dst_root, contents, with_own=True)
+    if tree_fingerprint(full0) != tree_fingerprint(full1):
+        ch = sorted(r for r in set(full0) | set(full1) if tree_fingerprint(full0).get(r) != tree_fingerprint(full1).get(r))
+        rep.oracle_fail("C08/dry-run-changed-destination", f"--dry-run changed destination entries {ch[:4]}", desc)
+    if tree_fingerprint(pre_src) != tree_fingerprint(snapshot(src_root, contents)): rep.oracle_fail("C08/dry-run-changed-source", "--dry-run changed the source", desc)
+    if h0 != h1:
+        ch = sorted(set(h0) ^ set(h1)) or sorted(k for k in h0 if h0[k] != h1.get(k))
+        rep.oracle_fail("C08/dry-run-changed-state-dir", f"--dry-run created/changed files under HOME/XDG dirs: {ch[:4]}", desc)
+    ev, bad = parse_json_lines(out)
+    rel_of = lambda p: os.path.relpath(p, dst_root)
+    dry_events = sorted((e["type"][0], rel_of(e["path"])) for e in ev if e.get("type") in ("create", "update", "skip", "delete"))
+    summ = next((e for e in ev if e.get("type") == "summary"), None)
+    # K: the model's dry run
+    mcfg = dict(cfg); mcfg["dry"] = 1
+    m = parse_model_result(drv.ask(f"engine.run {enc_cfg(mcfg)} {enc_scan(src_root, order, exb, contents)} {enc_dst(pre_dst, contents)}"))
+    if m is None: rep.disagree({"what": ["dry: model bad-op"], **desc}); return False
+    dis = []
+    if rc is None: dis.append("timeout")
+    elif (rc != 0) != (m["exit"] != 0): dis.append(f"dry exit impl={rc} model={m['exit']}")
+    elif summ is not None and not m["refused"]:
+        if dry_events != m["events"]: dis.append(f"dry events impl-only={[e for e in dry_events if e not in m['events']][:4]} model-only={[e for e in m['events'] if e not in dry_events][:4]}")
+        for k, mk in (("files_created", "created"), ("files_updated", "updated"), ("files_skipped", "skipped"), ("files_deleted", "deleted")):
+            if summ.get(k) != m[mk]: dis.append(f"dry {k} impl={summ.get(k)} model={m[mk]}")
+    if dis: rep.disagree({"what": dis, "stderr": err[-300:], **desc})
+    desc["_dry"] = {"rc": rc, "events": dry_events, "refused": summ is None}
+    rep.tag("c08.dry-twin")
+    return True
 
 def selected_entries(order, pre_src, exb, cfg):
     """entries selected by the active filter and size rules, from the property text of C16/C01:
@@ -376,6 +456,14 @@ def oracles(rep, focus, desc, rc, ev, bad, summ, real_events, real_errors, pre_s
         for rel in set(fp0) | set(fp1):
             if fp0.get(rel) != fp1.get(rel) and rel not in evp and not any(rel.startswith(e + "/") for e in evp):
                 rep.oracle_fail("C19/change-without-event", f"{rel} changed but no event mentions it", desc)
+    # --- C08: the dry run's actions are exactly the real run's (when no task failed)
+    if "_dry" in desc:
+        d = desc.pop("_dry")
+        if d["rc"] is not None and (d["rc"] != 0) != (rc != 0) and not real_errors:
+            rep.oracle_fail("C08/dry-run-exit-differs", f"dry run exit {d['rc']} but real run exit {rc}", desc)
+        elif rc == 0 and not real_errors and d["events"] != real_events:
+            a = [e for e in d["events"] if e not in real_events][:4]; b = [e for e in real_events if e not in d["events"]][:4]
+            rep.oracle_fail("C08/plan-differs-from-real-run", f"dry-run actions differ from the real run: dry-only {a} real-only {b}", desc)
     # --- C05: no working files left after success
     if rc == 0 and not dry:
         left = [r for r in post_dst if r.endswith(".sy.tmp") and r not in pre_src and r not in pre_dst]
